@@ -69,6 +69,9 @@ class T(Model):
     def m_truth(self, eng):
         return True
 
+    def m_unop(self, eng, op):
+        return T(type(op).__name__, self)
+
 
 def term_eq(eng, a, b):
     """z3 condition for structural equality of two terms (None if the shapes differ)."""
